@@ -87,6 +87,18 @@ def work(tier, seed):
             for pdt in (["bf16", "f32", "f32"], ["f32", "bf16", "f32"]):
                 cfg = seq.cfg_with(seed=seed, pdtypes=pdt, **L0, **opt_cfgs(seed)[1])
                 units.append({"kind": "canon", "cfg": cfg, "W": W, "g": g, "comm": comm, "cp": cp, "hists": h2[:: (5 if tier == "quick" else 1)]})
+    # a multi-block parameter FIRST, followed by single-block parameters (block offsets differ from parameter indices)
+    L1 = dict(shapes=[[5], [3, 2], [3, 2]], max_dim=3, merge=True)
+    for (W, g) in [(2, 2), (3, 3), (4, 2)] + ([(4, 4), (2, 1)] if tier == "thorough" else []):
+        for comm, cp in itertools.product(["FP32", "BF16"], [False, True]):
+            cfg = seq.cfg_with(seed=seed, **L1, **opt_cfgs(seed)[1 if cp else 0])
+            units.append({"kind": "canon", "cfg": cfg, "W": W, "g": g, "comm": comm, "cp": cp, "hists": h2[:: (4 if tier == "quick" else 1)]})
+    # parameters modified in place outside the optimizer between two steps: the next step starts from the current values
+    hsc = [[["step", list(a)], ["scale", 0.5], ["step", list(b)]] for a, b in itertools.product([[1, 1, 1], [1, 0, 1], [0, 1, 1]], repeat=2)]
+    for (W, g) in [(2, 2), (3, 3)] + ([(4, 2), (2, 1)] if tier == "thorough" else []):
+        for comm, cp in itertools.product(["FP32", "BF16"], [False, True]):
+            cfg = seq.cfg_with(seed=seed, **(L1 if cp else L0), **opt_cfgs(seed)[1])
+            units.append({"kind": "canon", "cfg": cfg, "W": W, "g": g, "comm": comm, "cp": cp, "hists": hsc})
     # schedule exploration on core histories
     core = [
         [["step", [1, 1, 1]], ["step", [1, 1, 1]]],
